@@ -16,14 +16,15 @@ import (
 // Part 2: an idle chain in LAZY mode. The REAL AggregationLoop (lazy mode, block interval 1 s, idle interval 2 s) and the
 // real submission loops run as threads of the cooperative scheduler (canonical order) under virtual time; the sequencing
 // layer only ever hands out empty batches (no transactions arrive). The explorer chooses, per DA block, whether the DA
-// layer is down. After the outage the DA layer accepts everything; block production must resume.
+// layer is down, and whether the node is restarted (crash or clean stop; new Manager and new loops over the image left
+// behind) at that DA-block boundary. After the outage the DA layer accepts everything; block production must resume.
 
-func lazyBody(t *testing.T, c *explore.Ctx, blocks int) (out outcome) {
-	synctest.Test(t, func(t *testing.T) { out = lazyBubble(c, blocks) })
+func lazyBody(t *testing.T, c *explore.Ctx, blocks int, sh sharder) (out outcome) {
+	synctest.Test(t, func(t *testing.T) { out = lazyBubble(c, blocks, sh) })
 	return
 }
 
-func lazyBubble(c *explore.Ctx, blocks int) (out outcome) {
+func lazyBubble(c *explore.Ctx, blocks int, sh sharder) (out outcome) {
 	t0 := time.Now()
 	limit := uint64(1 + c.Choose("config", 2))
 	p := world.Params{InitialHeight: 1, MaxPending: limit, Lazy: true, BlockTime: time.Second, LazyInterval: 2 * time.Second, DABlockTime: daBlock, MempoolTTL: 2, GenesisTime: t0.Add(-time.Hour)}
@@ -39,24 +40,37 @@ func lazyBubble(c *explore.Ctx, blocks int) (out outcome) {
 		return world.SubmitAcceptAll
 	}
 	sched := world.NewSched(nil)
-	n, err := world.StartNode(p, env, nil, world.NodeOpts{Aggregator: true, Gate: sched.Gate})
-	if err != nil {
-		out.fail = &world.Fail{Clause: "startup", Msg: err.Error()}
-		return
+	var n *world.Node
+	cancel := func() {}
+	errCh := make(chan error, 8)
+	// one process life: a Manager over the key/value image and the real loops as threads of the scheduler
+	boot := func(image map[string][]byte) *world.Fail {
+		nn, err := world.StartNode(p, env, image, world.NodeOpts{Aggregator: true, Gate: sched.Gate})
+		if err != nil {
+			return &world.Fail{Clause: "startup", Msg: "the node cannot start: " + err.Error()}
+		}
+		n = nn
+		var ctx context.Context
+		ctx, cancel = context.WithCancel(context.Background())
+		m := n.M
+		sched.Go("produce", func() { m.AggregationLoop(ctx, errCh) })
+		sched.Go("hdr-submit", func() { m.HeaderSubmissionLoop(ctx) })
+		sched.Go("data-submit", func() { m.DataSubmissionLoop(ctx) })
+		sched.Drain()
+		return nil
 	}
-	ctx, cancel := context.WithCancel(context.Background())
-	errCh := make(chan error, 4)
 	defer func() {
 		cancel()
-		n.Fate.Kill()
+		if n != nil {
+			n.Fate.Kill()
+		}
 		sched.Off()
 		synctest.Wait()
 	}()
-	m := n.M
-	sched.Go("produce", func() { m.AggregationLoop(ctx, errCh) })
-	sched.Go("hdr-submit", func() { m.HeaderSubmissionLoop(ctx) })
-	sched.Go("data-submit", func() { m.DataSubmissionLoop(ctx) })
-	sched.Drain()
+	if f := boot(nil); f != nil {
+		out.fail = f
+		return
+	}
 	second := func() {
 		for i := 0; i < 10; i++ {
 			time.Sleep(100 * time.Millisecond)
@@ -64,8 +78,66 @@ func lazyBubble(c *explore.Ctx, blocks int) (out outcome) {
 			sched.Drain()
 		}
 	}
-	sawOutage := false
-	for b := 0; b < blocks; b++ {
+	sawOutage, restarts, restartAfterAck := false, 0, false
+	tags := func() []string {
+		tg := []string{"lazy-mode", "idle-chain"}
+		if sawOutage {
+			tg = append(tg, "da-outage")
+		}
+		if restarts > 0 {
+			tg = append(tg, "node-restart")
+		}
+		if restartAfterAck {
+			tg = append(tg, "restart-after-da-acceptance")
+		}
+		return tg
+	}
+	// restart between two DA blocks: the old process ends (crash: nothing it does from now on reaches a double; clean
+	// stop: its loops are cancelled and run to their end first), a new Manager is built over the image it left behind
+	// and the three loops are started again. All timers of the old process have been served (the scheduler is drained),
+	// so the cancelled loops can only take the ctx.Done() branch.
+	restart := func(kind int, at int) *world.Fail {
+		restarts++
+		for _, call := range env.DA.SubmitLog() {
+			if call.Acked > 0 {
+				restartAfterAck = true
+			}
+		}
+		if kind == restartCrash {
+			out.events = append(out.events, fmt.Sprintf("before DA block %d: crash+restart", at))
+			n.Fate.Kill()
+			cancel()
+		} else {
+			out.events = append(out.events, fmt.Sprintf("before DA block %d: clean-stop+restart", at))
+			cancel()
+			sched.Drain()
+			n.Fate.Kill()
+		}
+		sched.Drain()
+		synctest.Wait()
+		if alive := sched.Alive(); len(alive) != 0 {
+			return &world.Fail{Clause: "engine", Msg: fmt.Sprintf("threads of the stopped process are still alive: %v", alive)}
+		}
+		return boot(n.KV.Image())
+	}
+	out.early = true
+	for b := 0; b <= blocks; b++ {
+		if b == blocks/2 {
+			if !sh.mine(c) {
+				out.skipped = true // another shard process continues below this prefix
+				return
+			}
+			out.early = false
+		}
+		if k := c.Choose("restart", 3); k != 0 {
+			if f := restart(k, b+1); f != nil {
+				out.fail, out.tags = f, tags()
+				return
+			}
+		}
+		if b == blocks {
+			break // the last restart point lies before the closing phase
+		}
 		outage = c.Choose("outage", 2) == 1
 		if outage {
 			sawOutage = true
@@ -88,13 +160,9 @@ func lazyBubble(c *explore.Ctx, blocks int) (out outcome) {
 		second()
 	}
 	h2 := n.Height()
-	tags := []string{"lazy-mode", "idle-chain"}
-	if sawOutage {
-		tags = append(tags, "da-outage")
-	}
 	if h2 <= h1 {
 		out.fail = &world.Fail{Clause: "resumes-after-acceptance", Msg: fmt.Sprintf("lazy mode, idle chain, limit %d: the DA layer has been accepting everything for 4 DA blocks, yet in the following 5 s (two idle intervals and a block interval) no block was produced (height stays %d)", limit, h1)}
-		out.tags = tags
+		out.tags = tags()
 		return
 	}
 	out.sig = fmt.Sprintf("lazy L%d %v h=%d->%d", limit, out.events, h1, h2)
